@@ -522,9 +522,15 @@ class Logix( Message_Router ):
             result	       += USINT.produce(	data.service )
             result	       += EPATH.produce(	data.path )
             result	       += UINT.produce(		data.write_tag.type )
-            result	       += UINT.produce(		data.write_tag.setdefault( 
-                'elements', len( data.write_tag.data )))
-            result	       += typed_data.produce(	data.write_tag )
+            if data.write_tag.type == STRUCT.tag_type:
+                # A STRUCT's .structure_tag follows the .type, *before* the element count (as parsed)
+                result	       += UINT.produce(	data.write_tag.structure_tag )
+                result	       += UINT.produce(	data.write_tag.elements )
+                result	       += STRUCT.produce(	data.write_tag )
+            else:
+                result	       += UINT.produce(	data.write_tag.setdefault(
+                    'elements', len( data.write_tag.data )))
+                result	       += typed_data.produce(	data.write_tag )
         elif ( data.get( 'service') == cls.WR_FRG_REQ
                or 'write_frag' in data and data.setdefault( 'service', cls.WR_FRG_REQ ) == cls.WR_FRG_REQ ):
             # We can NOT deduce the number of elements from len( write_frag.data );
@@ -534,10 +540,16 @@ class Logix( Message_Router ):
             result	       += USINT.produce(	data.service )
             result	       += EPATH.produce(	data.path )
             result	       += UINT.produce(		data.write_frag.type )
+            if data.write_frag.type == STRUCT.tag_type:
+                # A STRUCT's .structure_tag follows the .type, *before* the element count (as parsed)
+                result	       += UINT.produce(	data.write_frag.structure_tag )
             result	       += UINT.produce(		data.write_frag.elements )
             result	       += UDINT.produce(	data.write_frag.setdefault(
                 'offset', 0x00000000 ))
-            result	       += typed_data.produce(	data.write_frag )
+            if data.write_frag.type == STRUCT.tag_type:
+                result	       += STRUCT.produce(	data.write_frag )
+            else:
+                result	       += typed_data.produce(	data.write_frag )
         elif ( data.get( 'service' ) == cls.WR_TAG_RPY
                or data.get( 'service' ) == cls.WR_FRG_RPY ):
             result	       += USINT.produce(	data.service )
